@@ -164,6 +164,11 @@ func c13Family() []string {
 		`<%= nope %>`,
 		"\n\n<%= nope2 %>",
 		`<% let f = fn(x) { return x + ev(9) } %><%= f(1) %><%= f(2) %>`,
+		`<% let h = {} %><%= len(h) %>|<% h["a"] = 1 %><% h["b"] = d %><%= len(h) %>|<%= h["b"] %>`,
+		`<% let a = [] %><%= len(a) %>|<% let b = a + d %><%= len(b) %>|<%= len(a) %>`,
+		`<% let h = {"k": []} %><% h["k"] = h["k"] + 1 %><%= len(h["k"]) %>`,
+		"<%= d %> <% let = 3 %> x <%= 1 + %>",
+		`<%= if (d == 0 { %>x<% } %>`,
 	)
 	return out
 }
@@ -213,12 +218,12 @@ func init() {
 			return s
 		},
 		Run:  c13Run,
-		Rule: "programs: a 35-template corpus covering every construct + a family of hash literals (1..4 entries, identifier/string/duplicate keys, side-effecting values), map loops, data maps, method calls on receivers of two dynamic types, failing templates. (paths) every program x 2 data sets: fresh parse, 3 repeated executions of one parsed template, Clone, cache cold, cache warm, cache off again — all (out, err, side-effect log) equal; deep structural hash (reflection over every field, cycle-safe) of the parsed program equal before and after every execution. (env) every map-iteration call made during an execution is an environment choice point (runtime overlay): all single deviations (two in thorough) from the default order give the same (out, err, log); for-over-map output is compared as a multiset. (hist) explicit enumeration of histories over {fresh parse+exec, exec of a long-lived template, Clone+exec, Render through the cache, toggle CacheEnabled, CacheSet} x 4 templates (ok, failing inside a block on line 3, failing at top level, method call) x 2 data sets, from a cold and a warm cache; after every operation the result equals the pristine reference for (text, data), every live template's program hash is unchanged and a cached template was parsed from its key. Non-trivial: histories with >=2 operations / programs with a map or side effect.",
+		Rule: "programs: a 35-template corpus covering every construct + a family of hash literals (1..4 entries, identifier/string/duplicate keys, side-effecting values), map loops, data maps, method calls on receivers of two dynamic types, empty array/hash literals that are kept and written to, failing templates and templates that do not parse. (paths) every program x 2 data sets: fresh parse, 3 repeated executions of one parsed template, Clone, cache cold, cache warm, cache off again — all (out, err, side-effect log) equal; deep structural hash (reflection over every field, cycle-safe) of the parsed program equal before and after every execution. (env) every map-iteration call made during an execution is an environment choice point (runtime overlay): all single deviations (two in thorough) from the default order give the same (out, err, log); for-over-map output is compared as a multiset. (hist) explicit enumeration of histories over {fresh parse+exec, exec of a long-lived template, Clone+exec, Render through the cache, toggle CacheEnabled, CacheSet} x 5 templates (ok with an empty hash literal that is written to, failing inside a block on line 3, failing at top level, method call, one that does not parse) x 2 data sets, from a cold and a warm cache; after every operation the result equals the pristine reference for (text, data), every live template's program hash is unchanged and a cached template was parsed from its key. Non-trivial: histories with >=2 operations / programs with a map or side effect.",
 		Bound: func(th bool) string {
 			if th {
-				return "histories of length <=4 over the full 38-operation alphabet; all pairs of map-order deviations"
+				return "histories of length <=4 over the full 47-operation alphabet; all pairs of map-order deviations"
 			}
-			return "histories of length <=3 over the full 38-operation alphabet; all single map-order deviations"
+			return "histories of length <=3 over the full 47-operation alphabet; all single map-order deviations"
 		},
 	})
 }
@@ -226,10 +231,11 @@ func init() {
 // history alphabet ---------------------------------------------------------------
 
 var c13Templates = []string{
-	`<%= d %>:<%= {"a": ev(1), "b": ev(2)}["a"] %>`,
+	`<%= d %>:<%= {"a": ev(1), "b": ev(2)}["a"] %><% let h = {} %><% h["k"] = d %><%= len(h) %>`,
 	"x\n<%= if (true) { %>\n<%= d / 0 %><% } %>",
 	`<%= nope %>`,
 	`<%= animal.Name() %>`,
+	"ok <%= d %>\n<% let = 3 %> tail <%= 1 + %>", // does not parse
 }
 
 type c13Op struct {
@@ -403,10 +409,39 @@ func c13Run(t *engine.T, shard string) {
 					ref := c13Fresh(src, d)
 					tm, err := plush.NewTemplate(src)
 					if err != nil {
-						// parse errors must be stable too
-						_, err2 := plush.NewTemplate(src)
-						if errStr(err2) != err.Error() {
-							return "", engine.Failf("nondeterministic", "parse error differs between two parses: %q vs %q", err, err2)
+						// a template that does not parse must fail the same way on every path
+						perr := err.Error()
+						same := func(what string, e error, out string) *engine.Fail {
+							if errStr(e) != perr || out != "" {
+								return engine.Failf("nondeterministic", "%s of a template that does not parse: %q / %s, first parse said %q", what, out, errStr(e), perr)
+							}
+							return nil
+						}
+						for i := 0; i < 3; i++ {
+							e := &c13Env{}
+							out, e2 := tm.Exec(e.context(d))
+							if f := same(fmt.Sprintf("execution %d", i+1), e2, out); f != nil {
+								return "", f
+							}
+						}
+						e := &c13Env{}
+						out, e2 := tm.Clone().Exec(e.context(d))
+						if f := same("Clone", e2, out); f != nil {
+							return "", f
+						}
+						plush.CacheEnabled = true
+						for _, what := range []string{"cache cold", "cache warm", "cache warm again"} {
+							e := &c13Env{}
+							out, e2 := plush.Render(src, e.context(d))
+							if f := same(what, e2, out); f != nil {
+								return "", f
+							}
+						}
+						plush.CacheEnabled = false
+						e = &c13Env{}
+						out, e2 = plush.Render(src, e.context(d))
+						if f := same("cache off again", e2, out); f != nil {
+							return "", f
 						}
 						return "parse-error", nil
 					}
